@@ -21,6 +21,10 @@ import (
 //vp:all stub (*github.com/patrickmn/go-cache.Cache).Set = vpCacheSet
 //vp:all model (*github.com/patrickmn/go-cache.cache).Get = vpCacheGet
 //vp:all model (*github.com/patrickmn/go-cache.cache).Set = vpCacheSet
+//vp:all stub (*github.com/patrickmn/go-cache.Cache).GetWithExpiration = vpCacheGetX
+//vp:all stub (*github.com/patrickmn/go-cache.Cache).Delete = vpCacheDelete
+//vp:all model (*github.com/patrickmn/go-cache.cache).GetWithExpiration = vpCacheGetX
+//vp:all model (*github.com/patrickmn/go-cache.cache).Delete = vpCacheDelete
 //vp:all stub (*golang.org/x/oauth2.Config).Exchange = vpExchange
 //vp:all stub (*golang.org/x/oauth2.Config).AuthCodeURL = vpAuthCodeURL
 //vp:all stub (*golang.org/x/oauth2.Token).Extra = vpExtra
@@ -31,35 +35,79 @@ import (
 
 var (
 	vpCacheDefault time.Duration
-	vpCacheItems   map[string]interface{}
+	vpCacheItems   map[string]vpCacheItem
 	vpCacheSets    int
+	vpCacheLookups []vpCacheLookup
+	vpExchangeCalls int
 	vpExchanged    string
 	vpVerified     string
 	vpClaimNames   = []string{"preferred_username", "unique_name", "upn", "username"}
 )
 
+// go-cache as documented and as read (cache.go): Set(k, v, d) with d == 0 (DefaultExpiration) uses the
+// cache's default lifetime; with d > 0 the item expires at now+d; with d < 0 (NoExpiration is -1, and
+// the code tests "d > 0") it never expires. Get returns the latest Set unless it has expired. The
+// clock is the harness clock (arbitrary, non-decreasing instants).
+type vpCacheItem struct {
+	v     interface{}
+	never bool
+	exp   int64 // unix seconds
+}
+type vpCacheLookup struct {
+	key   string
+	at    int64
+	found bool
+}
+
 func vpCacheNew(def, cleanup time.Duration) *cache.Cache {
 	vpCacheDefault = def
-	vpCacheItems = map[string]interface{}{}
+	vpCacheItems = map[string]vpCacheItem{}
+	vpCacheLookups = nil
+	vpExchangeCalls = 0
 	return &cache.Cache{}
 }
 
-// go-cache contract: Get returns the latest Set for the key unless it expired (expiry may happen at any time).
-func vpCacheGet(c *cache.Cache, k string) (interface{}, bool) {
-	v, ok := vpCacheItems[k]
-	if !ok || vpBool("cache-entry-expired") {
-		return nil, false
+func vpCacheGetX(c *cache.Cache, k string) (interface{}, time.Time, bool) {
+	now := vpNow().Unix()
+	it, ok := vpCacheItems[k]
+	found := ok && (it.never || now < it.exp)
+	vpCacheLookups = append(vpCacheLookups, vpCacheLookup{k, now, found})
+	if !found {
+		return nil, time.Time{}, false
 	}
-	return v, true
+	if it.never {
+		return it.v, time.Time{}, true
+	}
+	return it.v, time.Unix(it.exp, 0), true
+}
+func vpCacheGet(c *cache.Cache, k string) (interface{}, bool) {
+	v, _, ok := vpCacheGetX(c, k)
+	return v, ok
 }
 func vpCacheSet(c *cache.Cache, k string, v interface{}, d time.Duration) {
 	vpCacheSets++
-	vpCacheItems[k] = v
+	sec := vpDurSeconds(d)
+	if sec == 0 {
+		sec = vpDurSeconds(vpCacheDefault)
+	}
+	it := vpCacheItem{v: v}
+	if sec > 0 {
+		it.exp = vpNow().Unix() + sec
+	} else {
+		it.never = true
+	}
+	vpCacheItems[k] = it
 }
+func vpCacheDelete(c *cache.Cache, k string) { delete(vpCacheItems, k) }
 
 func vpExchange(c *oauth2.Config, ctx context.Context, code string, opts ...oauth2.AuthCodeOption) (*oauth2.Token, error) {
 	vpExchanged = code
-	if vpBool("idp-refuses-code") {
+	vpExchangeCalls++
+	name := "idp-refuses-code"
+	if vpExchangeCalls > 1 {
+		name += "-" + vpItoa(vpExchangeCalls) // an independent verdict per exchange
+	}
+	if vpBool(name) {
 		return nil, errors.New("vp: IdP refuses the code")
 	}
 	return &oauth2.Token{AccessToken: vpStringN("access-token", 2)}, nil
@@ -142,8 +190,10 @@ func VP_C13_callback() {
 	h := (&OIDCConfig{}).New()
 	vpAssert(vpCacheDefault == 2*time.Minute, "issued-state-values-live-two-minutes")
 	issued := vpStringN("issued-state", 2)
+	var issuedAt int64
 	if vpBool("state-was-issued") {
 		vpCacheSet(nil, issued, "/connect", 0)
+		issuedAt = vpLastSec
 	}
 	presented := vpStringN("presented-state", 2)
 	vpQueryVals = url.Values{"state": {presented}, "code": {vpStringN("code", 2)}}
@@ -157,7 +207,8 @@ func VP_C13_callback() {
 	vpObserveBool("authed", authed)
 	if authed {
 		vpReach("logged-in")
-		vpAssert(vpBool("state-was-issued") && presented == issued && !vpBool("cache-entry-expired"), "state-was-issued-by-the-gateway-and-is-unexpired")
+		vpAssert(vpBool("state-was-issued") && presented == issued, "state-was-issued-by-the-gateway")
+		vpAssert(len(vpCacheLookups) >= 1 && vpCacheLookups[0].key == presented && vpCacheLookups[0].at < issuedAt+120, "state-was-issued-within-the-last-two-minutes")
 		vpAssert(!vpBool("idp-refuses-code") && vpExchanged == vpQueryVals.Get("code"), "idp-exchanged-the-presented-code")
 		vpAssert(vpIntRange("id-token-kind", 0, 2) == 0 && vpVerified == "raw-id-token", "id-token-present-and-handed-to-the-verifier")
 		vpAssert(!vpBool("id-token-fails-verification"), "id-token-verified")
@@ -186,6 +237,35 @@ func VP_C13_callback() {
 	}
 	// the identity object of a failing callback must not be left authenticated either (file store keeps it)
 	vpAssert(!id.Authenticated() || authed || st.saveErr, "failing-callback-leaves-the-identity-unauthenticated")
+}
+
+//vp:property C13
+//vp:bounds two callbacks carrying the same gateway-issued state value: the first is refused by the identity provider (after any delay), the second — at any later instant, with a code the provider may now accept and any ID-token outcome — is handled by the same handler; clock instants arbitrary and non-decreasing
+//vp:assume go-cache as read (a negative lifetime means no expiry; zero means the cache default); oauth2/go-oidc contracts as VP_C13_callback
+//vp:reach retry-accepted retry-refused
+func VP_C13_callback_retry() {
+	vpResetWeb()
+	vpSnaps = nil
+	st := vpNewStore()
+	sessionStore = st
+	h := (&OIDCConfig{}).New()
+	vpCacheSet(nil, "s1", "/connect", 0)
+	issuedAt := vpLastSec
+	vpQueryVals = url.Values{"state": {"s1"}, "code": {"c1"}}
+	vpAssume(vpBool("idp-refuses-code")) // the first attempt fails at the code exchange
+	h.HandleCallback(vpNewRW(), vpRequest("GET", http.Header{}, identity.NewUser()))
+	vpAssert(st.saves == 0 || !st.savedIdentity().Authenticated(), "refused-code-does-not-authenticate")
+	n1 := len(vpCacheLookups)
+	// the retry
+	w := vpNewRW()
+	h.HandleCallback(w, vpRequest("GET", http.Header{}, identity.NewUser()))
+	saved := st.savedIdentity()
+	if st.saves > 0 && saved != nil && saved.Authenticated() {
+		vpReach("retry-accepted")
+		vpAssert(len(vpCacheLookups) > n1 && vpCacheLookups[n1].at < issuedAt+120, "retried-state-was-issued-within-the-last-two-minutes")
+	} else {
+		vpReach("retry-refused")
+	}
 }
 
 //vp:property C13 C12
